@@ -90,6 +90,9 @@ class ProvXMLSerializer(Serializer):
         }
         if self.document._namespaces._default:
             nsmap[None] = self.document._namespaces._default.uri
+        if bundle._namespaces._default:
+            # a bundle's own default namespace takes precedence in its scope
+            nsmap[None] = bundle._namespaces._default.uri
         for namespace in bundle.namespaces:
             if namespace not in nsmap:
                 nsmap[namespace.prefix] = namespace.uri
